@@ -88,7 +88,7 @@ func run(c Case) (outcome, error) {
 		if st.T.Rooted() != wasRooted {
 			oc.rootedChange = true
 		}
-		if st.T.Root().Nneigh() < 2 || len(st.T.Tips()) < 3 {
+		if len(st.T.Tips()) < 3 {
 			// the removal of a non-monophyletic outgroup takes the whole clade of its common
 			// ancestor: fewer than three tips can remain, which ends the history (the
 			// operations are only required to cope with trees on >= 3 tips)
